@@ -56,6 +56,8 @@ pub mod c06_select;
 pub mod c07_pressure;
 #[cfg(feature = "c10")]
 pub mod c10_xo;
+#[cfg(feature = "c11")]
+pub mod c11_mutation;
 #[cfg(feature = "c13")]
 pub mod c13_weighted;
 #[cfg(feature = "c14")]
